@@ -165,6 +165,13 @@ def make_jobs(ctx, focus: str):
             jobs.append({"opt": nm, "cfg": {"max_cycles": 2, "fitness_error": None}, "record": True,
                          "task": {"vars": [("contmulti", ([-8.0, -8.0, -8.0], [8.0, 8.0, 8.0]))], "obj": "sphere", "minmax": r.choice(["min", "max"]), "seed": r.randint(0, 10**6)},
                          "retask_vars": [("contmulti", ([-1.0, 2.0, -1.0], [1.0, 3.0, 0.0]))]})
+        # a REUSED instance: an earlier run on another task of the same class (other weights / another objective over the same space and seed) must leave nothing behind
+        if r.random() < (0.3 if ctx.quick else 1.0):
+            sd = r.randint(0, 10**6)
+            mo = lambda w: {"vars": [("multiobj", ([-4.0, -4.0], [4.0, 4.0]))], "obj": "multi2", "minmax": r.choice(["min", "max"]), "weights": w, "seed": sd}
+            jobs.append({"opt": nm, "cfg": {"max_cycles": 2, "fitness_error": None}, "record": True, "sequence": [{"task": mo([0.5, 0.5])}], "task": mo([0.9, 0.1])})
+            jobs.append({"opt": nm, "cfg": {"max_cycles": 2, "fitness_error": None}, "record": True,
+                         "sequence": [{"task": search.cont_task(obj="sphere", seed=sd, dim=3)}], "task": search.cont_task(obj="shifted", minmax=r.choice(["min", "max"]), seed=sd, dim=3)})
         # two variables sharing one name (the library's default name is "var"): still one coordinate per declared variable
         if r.random() < (0.25 if ctx.quick else 1.0):
             jobs.append({"opt": nm, "cfg": {"max_cycles": 2, "fitness_error": None}, "record": True,
